@@ -1,6 +1,6 @@
 (* C09 -- the Huffman MCU unit (decode_mcu with restart processing) is resumable. *)
 From Coq Require Import List ZArith Lia Arith Bool.
-From LJT Require Import model.Suspend model.SuspendMarker model.SuspendHuff proofs.SuspendProofs
+From LJT Require Import model.SuspendCore model.SuspendMarker model.SuspendHuff proofs.SuspendProofs
   proofs.SuspendMarkerProofs.
 Import ListNotations.
 
